@@ -62,3 +62,78 @@ def lit(v, style=0):
             return f"({base} + {over})"
         return "{" + ", ".join(fld(f) for f in fs) + "}"
     raise ValueError(t)
+
+
+NOB = 1000
+
+
+def arr_term(t, style=0):
+    """View term of Arrays.tla -> Jsonnet expression."""
+    op = t["op"]
+    sub = lambda k: arr_term(t[k], style)  # noqa: E731
+    if op == "lit":
+        return "[" + ", ".join(lit(x) for x in t["xs"]) + "]"
+    if op == "range":
+        return f"std.range({t['a']}, {t['b']})"
+    if op == "make":
+        return f"std.makeArray({t['n']}, function(i) i * i)"
+    if op == "chars":
+        return f"std.stringChars({jstr(from_cps(t['s']))})"
+    if op == "utf8":
+        return f"std.encodeUTF8({jstr(from_cps(t['s']))})"
+    if op == "objvals":
+        return f"std.objectValues({lit(t['o'])})"
+    if op == "comp":
+        return f"[x for x in {sub('t')}]"
+    if op == "rev":
+        return f"std.reverse({sub('t')})"
+    if op == "map":
+        return f"std.map(function(x) [x], {sub('t')})"
+    if op == "mapidx":
+        return f"std.mapWithIndex(function(i, x) [i, x], {sub('t')})"
+    if op == "filter":
+        return f"std.filter(function(x) x != {t['v']}, {sub('t')})"
+    if op == "rep":
+        return f"std.repeat({sub('t')}, {t['n']})"
+    if op == "cat":
+        return f"({sub('t')} + {sub('u')})"
+    if op == "slice":
+        s, e, k = t["s"], t["e"], t["k"]
+        if style == 1:
+            f = lambda x: "null" if x == NOB else str(x)  # noqa: E731
+            return f"std.slice({sub('t')}, {f(s)}, {f(e)}, {f(k)})"
+        f = lambda x: "" if x == NOB else str(x)  # noqa: E731
+        inner = sub("t")
+        if not inner.endswith((")", "]")):
+            inner = f"({inner})"
+        if k == NOB:
+            return f"{inner}[{f(s)}:{f(e)}]"
+        return f"{inner}[{f(s)}:{f(e)}:{f(k)}]"
+    if op == "sort":
+        return f"std.sort({sub('t')})"
+    if op == "flat":
+        return "std.flattenArrays([" + ", ".join(arr_term(x, style) for x in t["ts"]) + "])"
+    if op == "removeat":
+        return f"std.removeAt({sub('t')}, {t['i']})"
+    raise ValueError(op)
+
+
+def term_ops(t):
+    """operator spine of a term, for grouping / known-finding keys"""
+    op = t["op"]
+    if "t" in t and isinstance(t["t"], dict) and "op" in t["t"]:
+        rest = term_ops(t["t"])
+    else:
+        rest = ""
+    if op == "cat":
+        return f"cat({term_ops(t['t'])},{term_ops(t['u'])})"
+    if op == "slice":
+        f = lambda x: "" if x == NOB else str(x)  # noqa: E731
+        return f"slice[{f(t['s'])}:{f(t['e'])}:{f(t['k'])}]({rest})"
+    if op in ("rep",):
+        return f"rep{t['n']}({rest})"
+    if op == "filter":
+        return f"filter{t['v']}({rest})"
+    if rest:
+        return f"{op}({rest})"
+    return op
